@@ -48,7 +48,7 @@ RULE = (
     "fields of octet 3 and the CRC flag, octet 0 mask 0x02) are not cases. Each case is handed to every decoder of the "
     "unit and (PUS) to check_pus_crc. A case counts as non-trivial when the uncorrupted packet is accepted by every "
     "decoder (otherwise refusing the corrupted one shows nothing). Valid clause: case = (corpus packet, starting point "
-    "new/packed/decoded, setter history up to depth d over the unit's event menu, packing route), enumerated shortest "
+    "new/packed/decoded/every alternate public constructor (PusTc.from_sp_header, PusTc/PusTm.from_composite_fields), setter history up to depth d over the unit's event menu, packing route), enumerated shortest "
     "history first; histories leaving the domain of the standard (fault location without an error condition code) are not cases."
 )
 BOUNDS = {
@@ -491,6 +491,11 @@ class Failure:
 STARTS = ["new", "packed", "decoded"]
 
 
+def starts_of(unit):
+    """constructor, constructor + pack(), decoder, and every alternate public constructor of the unit ("alt:<name>")"""
+    return STARTS + ["alt:" + n for n, _ in unit.alt_builders()]
+
+
 def routes_of(name):
     if name in PUS_PLAIN:
         return ["pack", "pack+norecalc", "calc_crc+norecalc", "to_space_packet"]
@@ -692,6 +697,8 @@ def eval_valid(unit, recipe, start, history, route):
             obj = unit.decoders()[0][1](unit.ref(recipe), recipe)
             if obj is None:
                 raise ValueError("None")
+        elif start.startswith("alt:"):
+            obj = dict(unit.alt_builders())[start[4:]](recipe)
         else:
             obj = unit.build(recipe)
             if start == "packed":
@@ -734,7 +741,7 @@ def minimise(unit, recipe, start, history, route, fail):
                 break
         if changed:
             continue
-        for s in STARTS[:STARTS.index(start)]:
+        for s in starts_of(unit)[:starts_of(unit).index(start)]:
             f2 = _try(unit, recipe, s, history, route, key)
             if f2 is not None:
                 start, fail, changed = s, f2, True
@@ -784,9 +791,27 @@ CRC_SRC = (
 )
 
 
-def pus_ctor_src(name, r):
-    """python source constructing the PUS packet of a recipe as `obj`"""
+def pus_ctor_src(name, r, alt=None):
+    """python source constructing the PUS packet of a recipe as `obj` (alt: through the named alternate constructor)"""
     hx = lambda k: f"bytes.fromhex('{UP.bb(r[k]).hex()}')"  # noqa: E731
+    if alt is not None:
+        imp = "from spacepackets.ccsds.spacepacket import PacketType, SequenceFlags, SpacePacketHeader\n"
+        if (name, alt) == ("PusTc", "from_sp_header"):
+            return (imp + "from spacepackets.ecss.tc import PusTc\n"
+                    f"obj = PusTc.from_sp_header(SpacePacketHeader(PacketType.TC, {r['apid']:#x}, {r['seq']:#x}, 0), {r['svc']}, {r['sub']}, {hx('data')}, "
+                    f"{r['src']:#x}, {r['ack']:#x})")
+        if (name, alt) == ("PusTc", "from_composite_fields"):
+            n = len(UP.bb(r["data"]))
+            return (imp + "from spacepackets.ecss.tc import PusTc, PusTcDataFieldHeader\n"
+                    f"obj = PusTc.from_composite_fields(SpacePacketHeader(PacketType.TC, {r['apid']:#x}, {r['seq']:#x}, {5 + n + 1}, True), "
+                    f"PusTcDataFieldHeader({r['svc']}, {r['sub']}, {r['src']:#x}, {r['ack']:#x}), {hx('data')})")
+        if (name, alt) == ("PusTm", "from_composite_fields"):
+            n = len(UP.bb(r["ts"])) + len(UP.bb(r["data"]))
+            return (imp + "from spacepackets.ecss.tm import PusTm, PusTmSecondaryHeader\n"
+                    f"obj = PusTm.from_composite_fields(SpacePacketHeader(PacketType.TM, {r['apid']:#x}, {r['seq']:#x}, {7 + n + 1}, True, "
+                    f"SequenceFlags.UNSEGMENTED, {r['ver']}), PusTmSecondaryHeader(service={r['svc']}, subservice={r['sub']}, timestamp={hx('ts')}, "
+                    f"message_counter={r['mc']:#x}, dest_id={r['dest']:#x}, spacecraft_time_ref={r['tref']}), {hx('data')})")
+        raise AssertionError((name, alt))
     if name == "PusTc":
         return ("from spacepackets.ecss.tc import PusTc\n"
                 f"obj = PusTc(service={r['svc']}, subservice={r['sub']}, apid={r['apid']:#x}, app_data={hx('data')}, seq_count={r['seq']:#x}, "
@@ -825,6 +850,8 @@ def valid_repro(unit, recipe, start, history, route, fail):
         if start == "decoded":
             lines.append(f"buf = bytes.fromhex('{ref.hex()}')  # valid packet (reference encoder)")
             lines.append(_decoder_src(unit, unit.decoders()[0][0], recipe).replace("r = ", "obj = "))
+        elif start.startswith("alt:"):
+            lines.append(pus_ctor_src(name, recipe, alt=start[4:]))
         elif unit.is_cfdp_pdu:
             r = U.norm(recipe)
             lines.append(U.ctor_source(name, r["cfg"], r["params"]).replace("pdu = ", "obj = "))
@@ -912,7 +939,7 @@ def run_valid(rec, item):
     valid_case(rec, unit, recipe, "ref", [], "pack", item["tier"])
     rec.count("uncorrupted_reference_packets/" + unit.name)
     events = menu(unit, recipe)
-    for start in STARTS:
+    for start in starts_of(unit):
         for h in histories(events, depth):
             if not in_domain(unit, recipe, h):
                 rec.count("histories_outside_the_domain/" + unit.name)
